@@ -12,7 +12,7 @@ from common import Ctx, Counters, Failure, main_wrapper, run_workers
 
 PID = "C18"
 ACTION = "enable"
-RULE = ("(a) exhaustive: file absent, empty, and every file of up to 3 (quick) / 4 (thorough) lines over a fixed 12-line alphabet "
+RULE = ("(a) exhaustive: file absent, empty, and every file of up to 3 (quick) / 4 (thorough) lines over a fixed 14-line alphabet "
         "(own entry plain / with blank / with comment, comments mentioning the library once and twice, foreign entry, another "
         "libsnoopy.so instance, blank, path with the library path as prefix / as suffix, shared line, CR-LF) x final newline "
         "yes/no; (b) Hypothesis line grammar with generated foreign paths, comments mentioning the library 0..3 times, "
